@@ -176,36 +176,36 @@ theorem accumulate_agrees_with_unsorted (l : List (Key × EntryRes)) (hn : nodup
   have := accumulateIn_order_independent_up_to_error_order (sortK l) l hp hn'
   exact ⟨this.1, this.2.1, this.2.2.1⟩
 
-/-- `invertSplit` (split_expression.go, MapExp branch; fix a10b6e7) -/
+/-- `invertSplit` (split_expression.go, MapExp branch; fix 3cfd1e8) -/
 theorem invertSplit_order_independent (l₁ l₂ : List (Key × EntryRes)) (h : l₁.Perm l₂)
     (hn : nodupKeys l₁ = true) :
     accumulate l₁ = accumulate l₂ ∧
       errorListText (accumulate l₁).errs = errorListText (accumulate l₂).errs := by
   rw [accumulate_order_independent l₁ l₂ h hn]; exact ⟨rfl, rfl⟩
 
-/-- `wrapDisabled` (resolve_stage.go, MapExp branch; fix dbe125e) -/
+/-- `wrapDisabled` (resolve_stage.go, MapExp branch; fix 3614e32) -/
 theorem wrapDisabled_order_independent (l₁ l₂ : List (Key × EntryRes)) (h : l₁.Perm l₂)
     (hn : nodupKeys l₁ = true) : accumulate l₁ = accumulate l₂ :=
   accumulate_order_independent l₁ l₂ h hn
 
-/-- `MergeExp.BindingPath`, static merge over a map (merge_exp.go; fix caaaa14) -/
+/-- `MergeExp.BindingPath`, static merge over a map (merge_exp.go; fix 4931c7d) -/
 theorem mergeBindingPath_order_independent (l₁ l₂ : List (Key × EntryRes)) (h : l₁.Perm l₂)
     (hn : nodupKeys l₁ = true) : accumulate l₁ = accumulate l₂ :=
   accumulate_order_independent l₁ l₂ h hn
 
 /-- `CallGraphStage.unsplit` / `CallGraphPipeline.unsplit`, the loop over the inputs
-(resolve_stage.go, resolve_pipeline.go; fixes 6c3747d, a3da383) -/
+(resolve_stage.go, resolve_pipeline.go; fixes 7ae87c8, 922daa0) -/
 theorem unsplit_order_independent (l₁ l₂ : List (Key × EntryRes)) (h : l₁.Perm l₂)
     (hn : nodupKeys l₁ = true) : accumulate l₁ = accumulate l₂ :=
   accumulate_order_independent l₁ l₂ h hn
 
-/-- `Node.resolveInputs` and `TopNode.resolveMap` (core/resolve.go; fixes 5437f17,
-1a1035b): `allReady` is `done`, the MarshalerMap is `vals` -/
+/-- `Node.resolveInputs` and `TopNode.resolveMap` (core/resolve.go; fixes 7218313,
+d4fb478): `allReady` is `done`, the MarshalerMap is `vals` -/
 theorem resolveInputs_order_independent (l₁ l₂ : List (Key × EntryRes)) (h : l₁.Perm l₂)
     (hn : nodupKeys l₁ = true) : accumulate l₁ = accumulate l₂ :=
   accumulate_order_independent l₁ l₂ h hn
 
-/-- `convertToExp` on a LazyArgumentMap / MarshalerMap (core/runtime.go; fix 7d4d97d):
+/-- `convertToExp` on a LazyArgumentMap / MarshalerMap (core/runtime.go; fix 218731a):
 the entry named in the returned error, and the partial result, are those of the
 smallest failing key whatever the iteration order. -/
 theorem convertToExp_order_independent {W E : Type} (conv : Key → W → Except E Bytes)
